@@ -830,6 +830,22 @@ func (w *Worker) runPath(it workItem) {
 		w.eng.cond.Signal()
 		return
 	}
+	if outcome == "engine-error" && !strings.HasPrefix(engErr, "solver process died") && !strings.HasPrefix(engErr, "internal:") {
+		// The engine could not execute this path (unmodelled library behaviour, e.g. a
+		// symbolic format string).  Record a "probe": concrete values that reach this
+		// point, for the checker to run natively.  A native panic or assertion failure
+		// on them is a confirmed counterexample; otherwise the path stays incomplete.
+		if m, r := w.model(); r == Sat {
+			site := engErr
+			if len(site) > 120 {
+				site = site[:120]
+			}
+			w.violations = append(w.violations, &Violation{
+				AssertID: "engine-error", Kind: "probe", Site: site,
+				Values: w.recsFromModel(m), Observes: w.evalObserves(m),
+			})
+		}
+	}
 	var wit *Witness
 	js := it.js
 	js.mu.Lock()
